@@ -1,17 +1,21 @@
 """C13 — expression typing: well-typed modules accepted, ill-typed ones rejected with a
 located error, never a crash.
 
-Tie: correspondence.  For every module the real front end (`glue.parse_emboss_file`) is
-run (a) up to `annotate_types` to obtain the resolved IR, which an independent walker over
-its JSON form turns into the Lean model's input (op `TYPE`), and (b) completely; the
-model's outcome (accepted / rejected in pass p with the set of (location, class) /
-crashed at site s) is compared with what the real passes `annotate_types`, `check_types`
-and the attribute validators of `attribute_checker.normalize_and_verify` reported.
+Tie: correspondence.  For every module set (1-3 files: imports, aliases, same-named enums and
+structs in different modules) the real front end (`glue.parse_emboss_file`) is run (a) up to
+`annotate_types` to obtain the resolved IR, which an independent walker over its JSON form
+turns into the Lean model's input (op `TYPE`; every item with the file it is written in,
+every reference with the file of the referred definition), and (b) completely; the model's
+outcome (accepted / rejected in pass p with the set of (location, file of the message, class,
+notes) / crashed at site s) is compared with what the real passes `annotate_types`,
+`check_types` and the attribute validators of `attribute_checker.normalize_and_verify`
+reported.
 
 Spec oracle (Python, no model, no compiler knowledge): the generator knows whether the
-module it wrote follows the documented rules and, if not, which line breaks which rule:
-valid => accepted; mutant => rejected, no exception, with a non-synthetic error whose file
-is the module and whose line is the mutated line.
+module set it wrote follows the documented rules and, if not, which line of which file breaks
+which rule: valid => accepted; mutant => rejected, no exception, with a non-synthetic error
+whose file and line are the mutated ones; boundary module (many offending lines, arities far
+beyond the usual) => the set of lines with a non-synthetic error is exactly the offending set.
 """
 import json
 import os
